@@ -853,3 +853,36 @@ Qed.
 
 Lemma c09_order h s d : c09_proj (dispatch h s d) = spec_order h s d.
 Proof. rewrite dispatch_spec. apply spec_trace_order. Qed.
+
+(** * Round "proofs": retried RunHandlers decorates once (repaired); the pinned behaviour is refuted *)
+Lemma step_residue st o : residue st = [] -> residue (step st o) = [].
+Proof.
+  intros H. destruct o as [h|id app|hn id app|dd ff|dd ff| |sn|dl]; simpl; try assumption.
+  - now destruct (find_handler (h_name h) st).
+  - destruct (first_unstarted st); [|assumption].
+    destruct (first_failing st (rev (pubdecs st))); [assumption|].
+    now destruct (first_failing st (subdecs st)).
+  - now destruct (find_handler sn st) as [[c [s|]]|].
+Qed.
+Theorem residue_empty_all ops : residue (exec rinit ops) = [].
+Proof.
+  induction ops as [|o ops IH] using rev_ind; [reflexivity|]. rewrite exec_snoc. now apply step_residue.
+Qed.
+(** so what a handler freezes when it is finally started is exactly the decorator lists of that moment *)
+Theorem start_one_no_residue ops hs : hs_started hs = None ->
+  start_one (exec rinit ops) hs =
+  HS (hs_cfg hs) (Some (ST (mws (exec rinit ops)) (pubdecs (exec rinit ops)) (subdecs (exec rinit ops)))).
+Proof.
+  intros H. unfold start_one, residue_of. rewrite H, residue_empty_all. simpl. now rewrite app_nil_r.
+Qed.
+
+Definition pinned_witness : list op :=
+  [OAddHandler (HC 10 1 7 20 (PReal 1 8) 30 1); OStart;
+   OAddPubDec 50 0; OAddSubDec 62 1; OAddHandler (HC 12 1 7 22 (PReal 1 8) 33 3); OStart; OStart].
+Lemma retry_pinned_refuted :
+  let d := DL 1 22 cx0 (0%N, false) (Ret [1%N]) PubAccept in
+  map (fun p => c09_proj (snd p)) (deliver (exec_pinned rinit pinned_witness) d)
+    = [[OSub 62 (CX 12 8 7 22 33); OFn; OPubDec 50; OPubDec 50; OPub]]
+  /\ map (fun p => c09_proj (snd p)) (deliver (exec rinit pinned_witness) d)
+    = [[OSub 62 (CX 12 8 7 22 33); OFn; OPubDec 50; OPub]].
+Proof. split; reflexivity. Qed.
